@@ -662,6 +662,9 @@ func (e *termEnv) fieldTerm(base ssa.Value, field int) *Term {
 		}
 	}
 	bterm := e.termOf(base)
+	if bterm.Op == "addr" && len(bterm.Args) == 1 {
+		bterm = bterm.Args[0] // field of a nested struct
+	}
 	root := bterm.String()
 	// shorten: only keep the root kind for leaves
 	return tleaf(typeShort(base.Type()) + "." + st.Field(field).Name() + "@" + root)
